@@ -477,6 +477,7 @@ func relayForms(u *runner.U, datagramMode bool) {
 	rec(nil)
 	for _, seq := range seqs {
 		var viol string
+		nameEcho := false
 		name := fmt.Sprintf("relay-forms datagram-mode=%v forms=%v", datagramMode, seq)
 		inSched(func(n *simnet.Net, s *vsched.Sched) {
 			echos := []*echo{{ip: net.IPv4(93, 184, 216, 40), port: 53}, {ip: net.ParseIP("2001:db8::40"), port: 5353}, {ip: net.IPv4(93, 184, 216, 40), port: 5300}}
@@ -556,8 +557,11 @@ func relayForms(u *runner.U, datagramMode bool) {
 					return
 				}
 				ipHdr := header(map[bool]int{true: 1, false: 4}[e.ip.To4() != nil], e.ip, "", e.port)
-				if !bytes.HasPrefix(reply, h) && !bytes.HasPrefix(reply, ipHdr) {
-					viol = fmt.Sprintf("datagram #%d: the reply's header % x does not name the replying host %v:%d", i, head(reply, 24), e.ip, e.port)
+				if !bytes.HasPrefix(reply, ipHdr) {
+					viol = fmt.Sprintf("datagram #%d: the reply's header % x does not carry the replying host's address %v:%d (the request named it as %q)", i, head(reply, 24), e.ip, e.port, f.name)
+					if f.atyp == 3 && bytes.HasPrefix(reply, h) {
+						nameEcho = true // the header of the request (a domain name) copied into the reply: a pattern of its own
+					}
 					return
 				}
 				wantBody := append([]byte{'r', 'e', byte('0' + f.dst)}, payload...)
@@ -572,8 +576,14 @@ func relayForms(u *runner.U, datagramMode bool) {
 		u.Eval(1)
 		u.Distinct(name)
 		if viol != "" {
-			u.Violation("C18/relay-addressing", viol, name, name)
-			return
+			sig := "C18/relay-addressing"
+			if nameEcho {
+				sig = "C18/relay-reply-header-echoes-name"
+			}
+			u.Violation(sig, viol, name, name)
+			if !nameEcho {
+				return
+			}
 		}
 	}
 }
@@ -690,6 +700,94 @@ func head(b []byte, n int) []byte {
 		return b[:n]
 	}
 	return b
+}
+
+// slowResolver answers the first lookup of a name after delay (a cold DNS cache), later ones at once.
+type slowResolver struct {
+	m     map[string]net.IP
+	delay time.Duration
+	seen  map[string]bool
+}
+
+func (r *slowResolver) LookupIP(ctx context.Context, network, host string) ([]net.IP, error) {
+	if !r.seen[host] {
+		r.seen[host] = true
+		vsched.Sleep(r.delay)
+	}
+	if ip, ok := r.m[host]; ok {
+		return []net.IP{ip}, nil
+	}
+	return nil, fmt.Errorf("no such host %q", host)
+}
+
+// relayOrder: datagrams to one destination, named by domain name or by address, enter the tunnel
+// one after the other while the first name lookup is slow: the destination receives them in the
+// order they were sent (none reordered within the tunnel).
+func relayOrder(u *runner.U, datagramMode bool) {
+	for _, forms := range [][]int{{3, 3, 1}, {3, 1, 1}, {3, 3, 3}, {1, 3, 1}, {3, 1, 3, 1}} {
+		for _, delay := range []time.Duration{0, 30 * time.Millisecond, 300 * time.Millisecond} {
+			var viol string
+			name := fmt.Sprintf("relay-order datagram-mode=%v header-kinds=%v first-lookup=%v", datagramMode, forms, delay)
+			inSched(func(n *simnet.Net, s *vsched.Sched) {
+				e := &echo{ip: net.IPv4(93, 184, 216, 40), port: 53}
+				ep := n.NewEndpoint(e.ip, e.port)
+				vsched.GoNamed("sink", "app", func() {
+					buf := make([]byte, 65536)
+					for {
+						m, _, err := ep.ReadFrom(buf)
+						if err != nil {
+							return
+						}
+						e.got = append(e.got, append([]byte(nil), buf[:m]...))
+					}
+				})
+				a, b := pipe(n, simnet.StreamOpts{})
+				udp, _ := vnet.ListenUDP("udp", nil)
+				res := &slowResolver{m: map[string]net.IP{"echo.example": e.ip}, delay: delay, seen: map[string]bool{}}
+				var send func(p []byte)
+				if !datagramMode {
+					vsched.GoNamed("loop", "server", func() { socks5.RunUDPAssociateLoop(udp, apicommon.NewPacketOverStreamTunnel(b), res) })
+					t := apicommon.NewPacketOverStreamTunnel(a)
+					send = func(p []byte) { t.Write(p) }
+				} else {
+					vsched.GoNamed("loop", "server", func() { socks5.VerifRunUDPAssociateDatagramLoop(udp, b, res) })
+					cl := n.NewEndpoint(net.IPv4(203, 0, 113, 5), 4444)
+					to := udp.LocalAddr()
+					send = func(p []byte) { cl.WriteTo(p, to) }
+				}
+				var want [][]byte
+				for i, atyp := range forms {
+					h := header(1, e.ip, "", e.port)
+					if atyp == 3 {
+						h = header(3, nil, "echo.example", e.port)
+					}
+					pl := []byte(fmt.Sprintf("datagram-%d", i))
+					want = append(want, pl)
+					send(append(append([]byte(nil), h...), pl...))
+					vsched.Sleep(time.Millisecond)
+				}
+				vsched.Sleep(2 * time.Second)
+				if len(e.got) != len(want) {
+					viol = fmt.Sprintf("%d datagrams were sent to the destination, it received %d", len(want), len(e.got))
+				} else {
+					for i := range want {
+						if !bytes.Equal(e.got[i], want[i]) {
+							viol = fmt.Sprintf("the destination received %q as datagram #%d, it was sent as #%d (reordered within the tunnel)", e.got[i], i, bytes.IndexByte([]byte("0123456789"), e.got[i][len(e.got[i])-1]))
+							break
+						}
+					}
+				}
+				a.Close()
+				udp.Close()
+			})
+			u.Eval(1)
+			u.Distinct(name)
+			if viol != "" {
+				u.Violation("C18/relay-order", viol, name, name)
+				return
+			}
+		}
+	}
 }
 
 type mapResolver map[string]net.IP
@@ -809,12 +907,14 @@ func units(tier string) []runner.Unit {
 		relay(u, false)
 		relayBurst(u, false)
 		relayForms(u, false)
+		relayOrder(u, false)
 		u.Sample("RunUDPAssociateLoop: sequences of datagrams with IPv4 / IPv6 / domain headers to two echo destinations, sizes {0,1,2,255,256,1400,9000}; every sequence of length <=3 over six destination forms (two ports of one IPv4 host, an IPv6 host, one name with two ports, a second name)")
 	}})
 	us = append(us, runner.Unit{Name: "relay-datagram", Cost: 2, Run: func(u *runner.U) {
 		relay(u, true)
 		relayBurst(u, true)
 		relayForms(u, true)
+		relayOrder(u, true)
 		u.Sample("runUDPAssociateDatagramLoop: same sequences over a UDP client socket")
 	}})
 	us = append(us, runner.Unit{Name: "bidi-copy-udp", Cost: 2, Run: func(u *runner.U) {
